@@ -10,6 +10,7 @@ import (
 	"go/types"
 	"math"
 	"sort"
+	"strconv"
 	"strings"
 
 	"gosym/smt"
@@ -520,6 +521,35 @@ func init() {
 			return nil
 		})
 	}
+	reg("strconv.Itoa", func(fr *frame, args []value) value { return strconv.Itoa(int(asInt64(args[0]))) })
+	reg("strconv.FormatUint", func(fr *frame, args []value) value {
+		return strconv.FormatUint(asUint64(args[0]), int(asInt64(args[1])))
+	})
+	reg("strconv.FormatInt", func(fr *frame, args []value) value {
+		return strconv.FormatInt(asInt64(args[0]), int(asInt64(args[1])))
+	})
+	reg("strconv.Quote", func(fr *frame, args []value) value { return strconv.Quote(args[0].(string)) })
+	reg("strconv.Atoi", func(fr *frame, args []value) value {
+		v, err := strconv.Atoi(args[0].(string))
+		if err != nil {
+			return tuple{v, mkError(err.Error())}
+		}
+		return tuple{v, iface{}}
+	})
+	reg("strconv.ParseInt", func(fr *frame, args []value) value {
+		v, err := strconv.ParseInt(args[0].(string), int(asInt64(args[1])), int(asInt64(args[2])))
+		if err != nil {
+			return tuple{v, mkError(err.Error())}
+		}
+		return tuple{v, iface{}}
+	})
+	reg("strconv.ParseUint", func(fr *frame, args []value) value {
+		v, err := strconv.ParseUint(args[0].(string), int(asInt64(args[1])), int(asInt64(args[2])))
+		if err != nil {
+			return tuple{v, mkError(err.Error())}
+		}
+		return tuple{v, iface{}}
+	})
 	reg("flag.Parse", nop)
 	reg("flag.Parsed", func(fr *frame, args []value) value { return true })
 	reg("os.Getenv", func(fr *frame, args []value) value { return "" })
